@@ -131,11 +131,47 @@ def is_later_rule_pattern_defect(schema, exc) -> bool:
     return type(exc).__name__ == 'SemanticError' and 'never occurs before' in str(exc) and L.uses_foreign_pattern(schema)
 
 
+def failing_user_function_probe():
+    """a user function that FAILS on a component it cannot read (raises) has not said that the constraint holds: check() may
+    raise or answer no, never yes.  -> list of (key, what, input)"""
+    from ndn.app_support.light_versec import compile_lvs, Checker
+    from ndn.encoding import Name, Component
+    text = ('#key: "app"/"KEY"/owner/level & {level: $at_most("3")}\n'
+            '#data: "app"/"data"/owner/_ <= #key\n')
+
+    def at_most(c, args):
+        return int(bytes(Component.get_value(c))) <= int(bytes(Component.get_value(args[0])))
+    fns = dict(L.lib_fns())
+    fns['$at_most'] = at_most
+    out = []
+    try:
+        ck = Checker(compile_lvs(text), fns)
+    except Exception as e:   # noqa
+        return [('C12:compile-raises', 'probe schema rejected: %r' % (e,), {'schema': None, 'text': text, 'pkt': None, 'key': None})]
+    for key_last, want in (('2', True), ('7', False), ('root', 'not-yes'), ('', 'not-yes')):
+        pkt, key = Name.from_str('/app/data/bob/1'), Name.from_str('/app/KEY/bob') + [Component.from_str(key_last)]
+        try:
+            got = ck.check(pkt, key)
+        except Exception:   # noqa - an error is not a yes
+            got = 'raised'
+        bad = (want is True and got is not True) or (want is False and got is not False) or (want == 'not-yes' and got is True)
+        if bad:
+            out.append(('C12:user-function-failure-counts-as-satisfied' if want == 'not-yes' else 'C12:check-wrong',
+                        'check(/app/data/bob/1, /app/KEY/bob/%s) -> %r with a user function that %s' % (
+                            key_last, got, 'raises on that component' if want == 'not-yes' else 'answers %r' % want),
+                        {'schema': None, 'text': text, 'pkt': None, 'key': key_last, 'probe': 'failing-user-function'}))
+    return out
+
+
 def run(tier: str, seed: int, shard: tuple[int, int]) -> dict:
     k, n = shard
     viol = L.Violations(MODULE)
     seen = set()
     evaluations = 0
+    if k == 0:
+        for key_, what_, inp_ in failing_user_function_probe():
+            viol.add(key_, what_, inp_)
+        evaluations += 4
     skipped = 0
     samples = []
     total = N_SCHEMAS.get(tier, N_SCHEMAS['quick'])
@@ -193,6 +229,9 @@ def run(tier: str, seed: int, shard: tuple[int, int]) -> dict:
 
 def replay(rec: dict) -> tuple[bool, str]:
     inp = rec['input']
+    if inp.get('probe') == 'failing-user-function':
+        found = [x for x in failing_user_function_probe() if x[0] == rec.get('key')]
+        return (not found, found[0][1] if found else 'probe holds')
     schema = inp['schema']
     try:
         checker = build(schema)
